@@ -311,6 +311,21 @@ func roundtripPlan(sig, tier string) []Unit {
 		units = append(units, Unit{Opts: def, Mon: mon, Tag: "sub-items-beyond-16-bits", History: []Letter{big, alpha[1]}},
 			Unit{Opts: def, Mon: mon, Tag: "sub-items-beyond-16-bits", History: []Letter{alpha[10], big}})
 	}
+	// one attribute record gaining one value type per batch (many schema updates over its life)
+	for _, lv := range []string{"item", "resource", "scope", "sub"} {
+		for _, step := range []int{1, 5} {
+			var h []Letter
+			for k := 0; k < 12; k++ {
+				h = append(h, Letter{Sig: sig, Mix: &Mix{Level: lv, Rot: (k * step) % NumMixValues, N: 1}})
+			}
+			units = append(units, Unit{Opts: def, Mon: mon, Tag: "type-by-type", History: h})
+			var acc []Letter
+			for k := 0; k < 14; k++ {
+				acc = append(acc, Letter{Sig: sig, Mix: &Mix{Level: lv, Rot: step, N: k + 1}})
+			}
+			units = append(units, Unit{Opts: def, Mon: mon, Tag: "type-by-type", History: acc})
+		}
+	}
 	// one key, a different value type under each parent
 	{
 		ml := mixLetters(sig, 1)
@@ -804,6 +819,41 @@ func nopanicPlan(tier string) []Unit {
 			}
 			for w := 0; w < NumWild; w++ {
 				units = append(units, Unit{Opts: def, Mon: mon, Tag: "pair", History: []Letter{one(sig, 1, 1, a, WildBase+w)}})
+			}
+		}
+		// the statistics option together with the statistics call at any point of a short history;
+		// one attribute record gaining a value type per batch (six and more schema updates over its life)
+		{
+			st := def
+			st.Stats = "ratio"
+			ha := historyAlphabet(sig, false)
+			rs := Letter{Op: "resetstats"}
+			for _, h := range histories(ha[:6], 2) {
+				units = append(units, Unit{Opts: st, Mon: mon, Tag: "stats-option", History: []Letter{h[0], rs, h[1], rs, h[0]}},
+					Unit{Opts: st, Mon: mon, Tag: "stats-option", History: []Letter{rs, h[0], h[1]}})
+			}
+			// one value type per batch, at each level, in two orders
+			for _, lv := range []string{"item", "resource", "scope", "sub"} {
+				for _, step := range []int{1, 5} {
+					var h []Letter
+					for k := 0; k < 12; k++ {
+						h = append(h, Letter{Sig: sig, Mix: &Mix{Level: lv, Rot: (k * step) % NumMixValues, N: 1}})
+					}
+					units = append(units, Unit{Opts: def, Mon: mon, Tag: "type-by-type", History: h})
+					// accumulating: batch k holds the first k+1 values of the rotation
+					var acc []Letter
+					for k := 0; k < 14; k++ {
+						acc = append(acc, Letter{Sig: sig, Mix: &Mix{Level: lv, Rot: step, N: k + 1}})
+					}
+					units = append(units, Unit{Opts: def, Mon: mon, Tag: "type-by-type", History: acc})
+				}
+			}
+			for it := 0; it < 12; it++ {
+				var h []Letter
+				for k := 0; k <= it; k++ {
+					h = append(h, one(sig, k%NumRes, k%NumScope, (k*7)%numItems(sig)))
+				}
+				units = append(units, Unit{Opts: def, Mon: mon, Tag: "type-by-type", History: h})
 			}
 		}
 		// zero-first-then-non-zero per archetype: [a] then [b] for all ordered pairs (histories of depth 2)
